@@ -267,6 +267,11 @@ func (p *Pipeline) reload(previousGeneration *Pipeline) {
 		var prev filters.Filter
 		if previousGeneration != nil {
 			prev = previousGeneration.getFilter(spec.Name())
+			// a filter of another kind under the same name is not a predecessor,
+			// it is closed together with the previous generation.
+			if prev != nil && prev.Kind().Name != filter.Kind().Name {
+				prev = nil
+			}
 		}
 		if prev == nil {
 			filter.Init()
